@@ -40,6 +40,7 @@ fn block(txs: Vec<TxSpec>, k: u16) -> BlockSpec {
     txs,
     coinbase: plain_coinbase(k),
     include_mempool: false,
+    mempool_limit: None,
   }
 }
 
@@ -225,6 +226,16 @@ pub fn gen_wallet(property: &str, seed: u64, thorough: bool) -> Scenario {
     let fee_rate = 1 + wrng.below(20) as u32;
     let rune = wrng.below(4) as u32;
     let cmd = match (property, wrng.below(10)) {
+      ("C21", _) => WalletCmd::Batch {
+        mode: wrng.below(3) as u8,
+        count: 1 + wrng.below(4) as u8,
+        parents: (0..wrng.below(3)).map(|_| wrng.below(16) as u32).collect(),
+        postage: if wrng.chance(1, 3) { Some(546 + wrng.below(30_000)) } else { None },
+        foreign_destinations: wrng.chance(1, 3),
+        delegate: if wrng.chance(1, 5) { Some(wrng.below(16) as u32) } else { None },
+        metadata: wrng.chance(1, 3),
+        fee_rate,
+      },
       ("C22", 0..=4) | (_, 0..=1) => WalletCmd::SendRune {
         rune,
         amount: gen_amount(&mut wrng),
@@ -260,11 +271,21 @@ pub fn gen_wallet(property: &str, seed: u64, thorough: bool) -> Scenario {
     // confirm before the next command (C22 settles every command on its own;
     // C23 sometimes leaves transactions unconfirmed so that the next command
     // runs against unconfirmed change)
-    if property == "C22" || wrng.chance(4, 5) {
+    if property == "C21" && wrng.chance(1, 3) {
+      // commit and reveal in consecutive blocks
       ops.push(Op::Mine(vec![BlockSpec {
         txs: vec![],
         coinbase: plain_coinbase(script()),
         include_mempool: true,
+        mempool_limit: Some(1),
+      }]));
+    }
+    if property == "C22" || property == "C21" || wrng.chance(4, 5) {
+      ops.push(Op::Mine(vec![BlockSpec {
+        txs: vec![],
+        coinbase: plain_coinbase(script()),
+        include_mempool: true,
+        mempool_limit: None,
       }]));
       ops.push(Op::Update(UpdateSpec {
         lag: 31,
@@ -350,6 +371,10 @@ enum Expect {
   },
   Cardinal,
   Mint(RuneId),
+  Batch {
+    parents: Vec<ord::InscriptionId>,
+    count: usize,
+  },
 }
 
 struct Resolved {
@@ -454,6 +479,92 @@ fn resolve(cmd: &WalletCmd, ex: &Exec, m: &Model, wv: &WalletView) -> Option<Res
         describe: format!("mint {spaced}"),
       })
     }
+    WalletCmd::Batch {
+      mode,
+      count,
+      parents,
+      postage,
+      foreign_destinations,
+      delegate,
+      metadata,
+      fee_rate,
+    } => {
+      let dir = ex.scratch_dir().join("batch");
+      std::fs::create_dir_all(&dir).ok()?;
+      // inscriptions the wallet holds, in creation order
+      let held: Vec<ord::InscriptionId> = m
+        .inscr
+        .list
+        .iter()
+        .filter(|i| {
+          i.sat
+            .and_then(|s| m.locate(s))
+            .and_then(|(o, _)| m.utxos.get(&o))
+            .is_some_and(|u| wv.owned.contains(&u.script))
+        })
+        .map(|i| i.id)
+        .collect();
+      let mut parent_ids: Vec<ord::InscriptionId> = Vec::new();
+      if !held.is_empty() {
+        for k in parents {
+          let id = held[*k as usize % held.len()];
+          if !parent_ids.contains(&id) {
+            parent_ids.push(id);
+          }
+        }
+      }
+      let mode_name = match mode % 3 {
+        0 => "separate-outputs",
+        1 => "shared-output",
+        _ => "same-sat",
+      };
+      let mut yaml = format!("mode: {mode_name}\n");
+      if !parent_ids.is_empty() {
+        yaml += "parents:\n";
+        for p in &parent_ids {
+          yaml += &format!("- {p}\n");
+        }
+      }
+      if let Some(p) = postage {
+        yaml += &format!("postage: {p}\n");
+      }
+      yaml += "inscriptions:\n";
+      let known = m.inscr.known_ids();
+      let n = (*count).clamp(1, 6) as usize;
+      for i in 0..n {
+        let path = dir.join(format!("file{i}.txt"));
+        std::fs::write(&path, format!("inscription {i} of a batch, seed {}", ex.seed)).ok()?;
+        yaml += &format!("- file: {}\n", path.display());
+        if let Some(d) = delegate
+          && !known.is_empty()
+          && i == 0
+        {
+          yaml += &format!("  delegate: {}\n", known[*d as usize % known.len()]);
+        }
+        if *foreign_destinations && mode % 3 == 0 {
+          yaml += &format!("  destination: {}\n", recipient(20 + i as u16, network).0);
+        }
+        if *metadata {
+          yaml += &format!("  metadata:\n    title: item {i}\n");
+        }
+      }
+      let path = dir.join("batch.yaml");
+      std::fs::write(&path, yaml).ok()?;
+      Some(Resolved {
+        argv: vec![
+          "batch".into(),
+          "--fee-rate".into(),
+          fee_rate.to_string(),
+          "--batch".into(),
+          path.display().to_string(),
+        ],
+        expect: Expect::Batch {
+          parents: parent_ids.clone(),
+          count: n,
+        },
+        describe: format!("batch {mode_name} x{n} parents {parent_ids:?}"),
+      })
+    }
     WalletCmd::Split { outputs, fee_rate } => {
       let mut yaml = String::from("outputs:\n");
       let mut to = Vec::new();
@@ -508,6 +619,114 @@ fn resolve(cmd: &WalletCmd, ex: &Exec, m: &Model, wv: &WalletView) -> Option<Res
   }
 }
 
+/// C21: what `wallet batch` reported is what the indexer assigns once commit
+/// and reveal are mined.
+fn settle_batch(
+  ex: &Exec,
+  after: &Model,
+  p: &Pending,
+  parents: &[ord::InscriptionId],
+  count: usize,
+  out: &mut Vec<Violation>,
+) {
+  let Ok(j) = serde_json::from_str::<serde_json::Value>(&p.stdout) else {
+    out.push(v("C21", "unreadable_output", format!("{}: {}", p.describe, p.stdout.chars().take(200).collect::<String>())));
+    return;
+  };
+  let index = ex.index();
+  let reveal: Option<bitcoin::Txid> = j["reveal"].as_str().and_then(|s| s.parse().ok());
+  let commit: Option<bitcoin::Txid> = j["commit"].as_str().and_then(|s| s.parse().ok());
+  let reported = j["inscriptions"].as_array().cloned().unwrap_or_default();
+  if reported.len() != count {
+    out.push(v("C21", "reported_count", format!("{}: {} inscriptions reported, {count} requested", p.describe, reported.len())));
+  }
+  let owned: BTreeSet<ScriptBuf> = ex.sim.snapshot(|s| s.world.wallet_side.wallets[WALLET].scripts.clone());
+  let mut reported_ids = BTreeSet::new();
+  for r in &reported {
+    let Some(id) = r["id"].as_str().and_then(|s| s.parse::<ord::InscriptionId>().ok()) else {
+      continue;
+    };
+    reported_ids.insert(id);
+    let want = r["location"].as_str().unwrap_or("").to_string();
+    match index.get_inscription_satpoint_by_id(id) {
+      Ok(Some(sp)) => {
+        if sp.to_string() != want {
+          out.push(v(
+            "C21",
+            "location_differs",
+            format!("{}: {id} reported at {want}, the indexer puts it at {sp}", p.describe),
+          ));
+        }
+        // the reported destination is where it went
+        if let (Some(dest), Some(u)) = (r["destination"].as_str(), after.utxos.get(&sp.outpoint)) {
+          let got = bitcoin::Address::from_script(&u.script, after.params.network)
+            .map(|a| a.to_string())
+            .unwrap_or_default();
+          if got != dest {
+            out.push(v("C21", "destination_differs", format!("{}: {id} reported to {dest}, sits at {got}", p.describe)));
+          }
+        }
+      }
+      _ => out.push(v(
+        "C21",
+        "reported_inscription_missing",
+        format!("{}: {id} was reported but the indexer has no such inscription after mining", p.describe),
+      )),
+    }
+  }
+  // exactly the reported ids were created by the reveal
+  if let Some(reveal) = reveal {
+    let created: BTreeSet<ord::InscriptionId> = after
+      .inscr
+      .list
+      .iter()
+      .filter(|i| i.id.txid == reveal)
+      .map(|i| i.id)
+      .collect();
+    if created != reported_ids {
+      out.push(v(
+        "C21",
+        "created_set_differs",
+        format!("{}: reveal {reveal} created {created:?}, reported {reported_ids:?}", p.describe),
+      ));
+    }
+  }
+  // parents return to the wallet, and are recorded as parents
+  for parent in parents {
+    match index.get_inscription_satpoint_by_id(*parent) {
+      Ok(Some(sp)) => {
+        let mine = after.utxos.get(&sp.outpoint).is_some_and(|u| owned.contains(&u.script));
+        if !mine {
+          out.push(v(
+            "C21",
+            "parent_left_the_wallet",
+            format!("{}: parent {parent} is now at {sp}, which is not a wallet output", p.describe),
+          ));
+        }
+      }
+      _ => out.push(v("C21", "parent_lost", format!("{}: parent {parent} has no location", p.describe))),
+    }
+  }
+  // the commit spends no inscribed or runic output
+  if let Some(commit) = commit
+    && let Some(tx) = p.txs.iter().find(|t| t.compute_txid() == commit)
+  {
+    for i in &tx.input {
+      let (runes, inscribed) = holdings(&p.before, &i.previous_output);
+      if inscribed > 0 || !runes.is_empty() {
+        out.push(v(
+          "C21",
+          "commit_spends_non_cardinal",
+          format!(
+            "{}: commit {commit} spends {} holding {inscribed} inscription(s) and runes {runes:?}",
+            p.describe, i.previous_output
+          ),
+        ));
+      }
+    }
+  }
+}
+
 /// Runes and inscriptions held by an output, by the reference model.
 fn holdings(m: &Model, o: &OutPoint) -> (BTreeMap<RuneId, u128>, usize) {
   let runes = m.runes.balances.get(o).cloned().unwrap_or_default();
@@ -527,6 +746,7 @@ fn holdings(m: &Model, o: &OutPoint) -> (BTreeMap<RuneId, u128>, usize) {
 
 struct Pending {
   describe: String,
+  stdout: String,
   expect: Expect,
   txs: Vec<Transaction>,
   before: std::sync::Arc<Model>,
@@ -592,6 +812,13 @@ pub fn run_wallet(property: &str, sc: &Scenario) -> RunReport {
           .map(|(id, e)| (id, e.burned))
           .collect();
         for p in pending.drain(..) {
+          if property == "C21"
+            && let Expect::Batch { parents, count } = &p.expect
+          {
+            ctx.report.checks += 1;
+            settle_batch(&ex, &after, &p, parents, *count, &mut out);
+            continue;
+          }
           if property != "C22" {
             continue;
           }
@@ -750,6 +977,9 @@ pub fn run_wallet(property: &str, sc: &Scenario) -> RunReport {
         match &result {
           Ok(_) => succeeded += 1,
           Err(e) => {
+            if std::env::var_os("ORDSIM_VERBOSE").is_some() {
+              eprintln!("wallet command {:?} failed: {e}", resolved.argv);
+            }
             let key: String = e.chars().take(60).collect();
             *rejected.entry(key).or_default() += 1;
           }
@@ -809,6 +1039,7 @@ pub fn run_wallet(property: &str, sc: &Scenario) -> RunReport {
         if result.is_ok() && !txs.is_empty() {
           pending.push(Pending {
             describe: resolved.describe.clone(),
+            stdout: result.clone().unwrap_or_default(),
             expect: resolved.expect.clone(),
             txs,
             before,
@@ -848,6 +1079,9 @@ pub fn run_wallet(property: &str, sc: &Scenario) -> RunReport {
   let mut report = finish_report(ex, ctx.report, sc, final_digest);
   report.facts.extend(facts);
   report.nontrivial = report.checks > 0 && succeeded >= 1;
+  if property == "C21" {
+    report.nontrivial = report.checks > 0;
+  }
   report.wall_us = start.elapsed().as_micros() as u64;
   let _ = wallet_script;
   report
